@@ -156,6 +156,9 @@ class Run(object):
 
         def serializer(v):
             self.calls.append((tname, kind, key))
+            sc = self.rc.sched
+            if sc is not None and sc.p_switch:
+                sc.yield_point("in-serializer")      # another thread may log the same type right now
             if p and self.fault.chance(p, "ser_raise"):
                 self.failed.append((tname, kind, key))
                 self.rc.count_fault("ser_raise")
@@ -371,7 +374,7 @@ def run_threads(rc, cfg, types, dec):
     e = rc.eliot
     st = dec.stream("prog")
     s = Sched(dec.stream("sched"), p_switch=cfg["p_switch"], gran="line", max_steps=400000,
-              traced=["_output.py", "_traceback.py"], call_budget=None)
+              traced=["_output.py", "_traceback.py", "_validation.py"], call_budget=None)
     rc.sched = s
     rc.clock = seams.begin_run(rc.seed)
     rc.tap = Tap(rc, deep=False)
@@ -388,6 +391,10 @@ def run_threads(rc, cfg, types, dec):
         plan.append(ops)
     run = [None]
     outcome = {}
+    logged = {}
+    for ops in plan:
+        for nid_, tname_, f_, om_ in ops:
+            logged[nid_] = (tname_, f_)
 
     def actor(ops):
         def fn():
@@ -452,6 +459,14 @@ def run_threads(rc, cfg, types, dec):
         if what == "ok":
             if delivered != 1 or reports:
                 raise Violation(("delivery", {"what": "msg"}), "nid=%s delivered %d times, %d reports" % (nid, delivered, reports))
+            m = [x for x in msgs if x.get("nid") == nid and x.get("message_type", "").startswith("t:")][0]
+            tname, f = logged[nid]
+            for k, sname in run[0].decl[(tname, "msg")]:
+                want = SER[sname](f[k])
+                if m.get(k) != want or type(m.get(k)) is not type(want):
+                    raise Violation(("wrong_serialization", {"what": "msg", "concurrent": True}),
+                                    "message nid=%s logged from several threads at once: field %r delivered as %r, "
+                                    "serializer(logged value) = %r" % (nid, k, m.get(k), want))
         else:
             n_failed += 1
             if delivered:
